@@ -4,6 +4,7 @@ spec: Spec/Xml.lean).
 -/
 import PdfVerif.Lemmas.XmlDoc
 import PdfVerif.Lemmas.Format
+import PdfVerif.Lemmas.XmlInj
 
 namespace PdfVerif.Props.C11
 open PdfVerif PdfVerif.Convert PdfVerif.Xml
@@ -251,6 +252,66 @@ example : parseXML (sinkText (xmlDocWrites true (some ['u', 't', 'f', '-', '8'])
     subst hp
     simp only [PageOk, demoPage, ItemOk, ItemsOk, GroupsOk, GroupOk, Plain, Legal, TextPlain]
     decide
+
+/-! ### The XML output determines the hierarchy (injectivity of the rendering)
+
+`stripPage strip` is the tree with `CONTROL.sub` applied to the strings the converter strips (font name, glyph
+text, figure name, exported image name) - the identity without strip_control.  Numbers are the formatted fields,
+so "equal" is equality up to number formatting. -/
+
+/-- the skeleton with strip_control is the skeleton of the stripped tree -/
+theorem C11_skeleton_strip (strip : Bool) (ps : List Page) :
+    docSkeleton strip ps = docSkeleton false (ps.map (stripPage strip)) := docSkeleton_strip strip ps
+
+/-- Two hierarchies with the same skeleton are the same hierarchy (after the optional stripping): element
+names, attributes, character data and nesting leave nothing of the tree undetermined. -/
+theorem C11_skeleton_injective (strip : Bool) (ps qs : List Page)
+    (h : docSkeleton strip ps = docSkeleton strip qs) :
+    ps.map (stripPage strip) = qs.map (stripPage strip) := by
+  rw [docSkeleton_strip strip ps, docSkeleton_strip strip qs] at h
+  exact docSkeleton_inj _ _ h
+
+/-- **Faithful = injective.** If `XMLConverter` writes the same characters for two hierarchies in the domain
+(whatever the declared codecs), the hierarchies are equal after the optional CONTROL stripping; without
+strip_control they are equal.  Together with `C11_xml_wf`: a reader recovers exactly one tree from the output. -/
+theorem C11_xml_injective (strip : Bool) (codec codec' : Option Str) (ps qs : List Page)
+    (hc : CodecNameOk codec) (hc' : CodecNameOk codec')
+    (hp : ∀ p ∈ ps, PageOk strip p) (hq : ∀ p ∈ qs, PageOk strip p)
+    (h : sinkText (xmlDocWrites strip codec ps) = sinkText (xmlDocWrites strip codec' qs)) :
+    ps.map (stripPage strip) = qs.map (stripPage strip) := by
+  have h1 := C11_xml_wf strip codec ps hc hp
+  have h2 := C11_xml_wf strip codec' qs hc' hq
+  rw [h, h2] at h1
+  exact (C11_skeleton_injective strip qs ps (Option.some.inj h1)).symm
+
+theorem C11_xml_injective_nostrip (codec codec' : Option Str) (ps qs : List Page)
+    (hc : CodecNameOk codec) (hc' : CodecNameOk codec')
+    (hp : ∀ p ∈ ps, PageOk false p) (hq : ∀ p ∈ qs, PageOk false p)
+    (h : sinkText (xmlDocWrites false codec ps) = sinkText (xmlDocWrites false codec' qs)) : ps = qs := by
+  have := C11_xml_injective false codec codec' ps qs hc hc' hp hq h
+  have e : ∀ l : List Page, l.map (stripPage false) = l := fun l => by
+    induction l with
+    | nil => rfl
+    | cons p l ih => simp [stripPage_false, ih]
+  rwa [e, e] at this
+
+/-- non-vacuity: two pages that differ in one LTAnno (space / line break) - both in the domain - cannot have the
+same output; with strip_control two glyph texts that differ only in a stripped control character are identified -/
+def pgA : Page := ⟨['1'], ['0'], ['0'], [.anno [' ']], none⟩
+def pgB : Page := ⟨['1'], ['0'], ['0'], [.anno ['\n']], none⟩
+
+example : sinkText (xmlDocWrites false none [pgA]) ≠ sinkText (xmlDocWrites false none [pgB]) := by
+  intro h
+  have := C11_xml_injective_nostrip none none [pgA] [pgB] trivial trivial
+    (by intro p hp; simp only [List.mem_singleton] at hp; subst hp
+        simp only [PageOk, pgA, ItemOk, ItemsOk, Plain, TextPlain]; decide)
+    (by intro p hp; simp only [List.mem_singleton] at hp; subst hp
+        simp only [PageOk, pgB, ItemOk, ItemsOk, Plain, TextPlain]; decide) h
+  simp [pgA, pgB] at this
+
+example : stripPage true ⟨['1'], ['0'], ['0'], [.char ['F'] [] [] [] [] ['a', '\x01']], none⟩ =
+    stripPage true ⟨['1'], ['0'], ['0'], [.char ['F', '\x02'] [] [] [] [] ['a']], none⟩ := by
+  simp [stripPage, stripItemL, stripItem]; decide
 
 /-- the escapes matter: the same figure name written raw (the pinned behaviour) is rejected by the reader -/
 example : parseXML (['<', 'f', ' ', 'n', '=', '"'] ++ ['a', '"', '<'] ++ ['"', '/', '>']) = none := by decide
